@@ -92,6 +92,10 @@ CHECKS = {
          'Bounded verification: every transformation of the list applied to the small-CNF set leaves its input untouched, returns a fresh formula and records provenance; the builders never modify their argument for any integer constant (Confirmed over all paths).',
          'Trusted: snapshot = public views + DIMACS text; CrossHair models of list/tuple. Outside: larger formulas, longer chains.',
          'DESIGN.md section 3 C19'),
+ 'C10': ('CrossHair/z3-accounted exhaustive walk of 2- and 3-step histories of variable-group creation / clause insertion (freshness, range, count); auxiliary run-time monitor over all family instances of the other boxes',
+         'Bounded exhaustive verification (enumerative mode) of the allocation invariant over short histories on CNF and OPB; the sweep over families is a concrete monitor (exhaustive over the boxes, not solver-decided) and is reported separately.',
+         'Trusted: CrossHair accounting; monitor wrappers installed by the harness. Outside: user code inserting clauses with check=False, longer histories.',
+         'DESIGN.md section 3 C10'),
 }
 NA = {}
 
